@@ -114,8 +114,93 @@ def rr(r, qoff):
     return (n, t, cls, ttl, rd), feats
 
 
-def message(r):
-    """-> (wire bytes, features)"""
+def _plain_name(r, qoff=None, allow_ptr=False):
+    labs = [r.choice(LABELS_PLAIN[:7]) for _ in range(r.choice([1, 2, 2, 3]))]
+    if allow_ptr and qoff is not None and r.random() < 0.2:
+        return D.enc_name(labs[:1], pointer=qoff)
+    return D.enc_name(labs)
+
+
+def _cs(r, items=(b"", b"a", b"hello", b"E2U+sip", b"!^.*$!sip:x@example.com!", b"issue", b"letsencrypt.org", b"v=spf1 -all")):
+    t = r.choice(items)
+    return bytes([len(t)]) + t
+
+
+def _rb(r, n):
+    return bytes(r.getrandbits(8) for _ in range(n))
+
+
+def wellformed_rdata(r, t, qoff):
+    """Well-formed, short RDATA for a type mitmproxy knows by name (RFC 1035/2782/3403/4034/6672/6698/7553/8659/9460...)."""
+    ptr_ok = t in D.ONE_NAME | D.U16_NAME | D.TWO_NAMES | {D.SOA}  # RFC 3597: only the RFC 1035 types may be compressed
+    if t in D.ONE_NAME or t == 39:
+        return _plain_name(r, qoff, ptr_ok)
+    if t in D.U16_NAME:
+        return struct.pack("!H", r.choice([0, 1, 10, 100])) + _plain_name(r, qoff, ptr_ok)
+    if t in D.TWO_NAMES:
+        return _plain_name(r, qoff, ptr_ok) + _plain_name(r)
+    if t == 6:
+        return _plain_name(r, qoff, ptr_ok) + _plain_name(r) + struct.pack("!IIIII", r.choice([1, 2024010101]), 3600, 600, 86400, 60)
+    if t == 33:
+        return struct.pack("!HHH", r.choice([0, 10]), r.choice([0, 5]), r.choice([443, 5060])) + _plain_name(r)
+    if t == 35:
+        return struct.pack("!HH", 100, 10) + _cs(r, (b"u", b"s", b"")) + _cs(r, (b"E2U+sip", b"")) + _cs(r, (b"!^.*$!sip:x@example.com!", b"")) + _plain_name(r)
+    if t == 257:
+        tag = r.choice([b"issue", b"issuewild", b"iodef"])
+        return bytes([r.choice([0, 128]), len(tag)]) + tag + r.choice([b"letsencrypt.org", b";", b"mailto:a@example.com"])
+    if t in (43, 59, 32769, 32768):
+        return struct.pack("!HBB", r.getrandbits(16), r.choice([8, 13]), r.choice([1, 2])) + _rb(r, r.choice([4, 20]))
+    if t in (48, 60, 25):
+        return struct.pack("!HBB", r.choice([256, 257]), 3, r.choice([8, 13])) + _rb(r, r.choice([4, 16]))
+    if t in (64, 65):
+        rd = https_rdata(r, qoff)
+        return rd
+    if t == 41:
+        return b"" if r.random() < 0.5 else struct.pack("!HH", 10, 8) + _rb(r, 8)
+    if t in (16, 99):
+        return b"".join(_cs(r, (b"v=spf1 -all", b"hello", b"a", b"k=v")) for _ in range(r.choice([1, 1, 2])))
+    if t == 13:
+        return _cs(r, (b"x86", b"")) + _cs(r, (b"linux", b""))
+    if t == 1:
+        return _rb(r, 4)
+    if t == 28:
+        return _rb(r, 16)
+    if t == 29:
+        return b"\x00" + _rb(r, 15)
+    if t == 44:
+        return bytes([r.choice([1, 4]), r.choice([1, 2])]) + _rb(r, 20)
+    if t in (52, 53):
+        return bytes([r.choice([0, 3]), r.choice([0, 1]), 1]) + _rb(r, r.choice([8, 24]))
+    if t == 256:
+        return struct.pack("!HH", 10, 1) + r.choice([b"https://example.com/", b"ftp://a"])
+    if t == 108:
+        return _rb(r, 6)
+    if t == 109:
+        return _rb(r, 8)
+    if t == 105:
+        return struct.pack("!H", 10) + _rb(r, 4)
+    if t in (104, 106):
+        return struct.pack("!H", 10) + _rb(r, 8)
+    if t == 107:
+        return struct.pack("!H", 10) + _plain_name(r)
+    if t == 47:
+        return _plain_name(r) + b"\x00\x06\x40\x01\x00\x00\x00\x03"
+    if t in (46, 24):
+        return struct.pack("!HBBIIIH", 1, 13, 2, 3600, 1700000000, 1690000000, r.getrandbits(16)) + _plain_name(r) + _rb(r, 8)
+    return _rb(r, r.choice([0, 1, 2, 4, 8, 12, 24]))
+
+
+def known_type_rr(r, t, qoff):
+    """A record of a type mitmproxy has a name for, with plain owner name and well-formed short RDATA."""
+    n = _plain_name(r, qoff, True)
+    if t == 41:
+        return (b"\x00", t, r.choice([512, 1232, 4096]), r.choice([0, 0x8000]), wellformed_rdata(r, t, qoff))
+    return (n, t, 1, r.choice([0, 60, 300, 86400]), wellformed_rdata(r, t, qoff))
+
+
+def message(r, known_types=()):
+    """-> (wire bytes, features).  known_types: type numbers the implementation knows by name; 2-4 records of such types
+    (uniformly chosen) with well-formed short RDATA are added to random sections, next to the hostile/unknown ones."""
     feats = set()
     z = r.choice([0, 0, 0, 0, 1, 2, 4, 7, 3])
     fl = D.flags_word(qr=r.getrandbits(1), opcode=r.choice([0, 0, 0, 0, 1, 2, 4, 5, 6, 3, 7, 15]), aa=r.getrandbits(1), tc=r.getrandbits(1), rd=r.getrandbits(1), ra=r.getrandbits(1), z=z, rcode=r.choice([0, 0, 0, 2, 3, 5, 11, 12, 15]))
@@ -137,5 +222,10 @@ def message(r):
             feats |= f
             lst.append(rec)
         secs.append(lst)
+    if known_types:
+        for _ in range(r.choice([3, 4, 4, 5])):
+            secs[r.choice([0, 0, 1, 2])].append(known_type_rr(r, r.choice(known_types), qoff))
+        for lst in secs:
+            r.shuffle(lst)
     wire = D.encode(r.getrandbits(16), fl, qs, *secs)
     return wire, feats
